@@ -547,12 +547,50 @@ func c09R6(r *Run, pf, mf *c09fn) {
 		kp := c.name + "[" + structCase + "]:"
 		ftis := callsIn(c, structCase, "tls.fieldTagToFieldInfo")
 		recs := callsIn(c, structCase, "tls."+c.name)
-		if len(ftis) != 1 || len(recs) != 1 {
-			r.Fail(kp+"variant-table", r.FnPos(fn), "undecided: expected one tag lookup and one recursive call in the field loop")
+		if len(ftis) != 1 || len(recs) < 1 {
+			r.Fail(kp+"variant-table", r.FnPos(fn), fmt.Sprintf("undecided: expected one tag lookup and at least one recursive call in the field loop, found %d and %d", len(ftis), len(recs)))
 			continue
 		}
-		body, rec := ftis[0].Block(), recs[0]
+		body := ftis[0].Block()
 		head := loopHeadOf(ftis[0])
+		// The field may be coded at one place whose operand merges the two forms (v.Field(i) for a
+		// plain field, v.Field(i).Elem() for a chosen variant), or at a place of its own per form.
+		// What the table demands is the same: in every row exactly ONE recursive call executes in
+		// an iteration that codes the field (none in one that does not), and its operand is the
+		// form that the row calls for.
+		vpv := fn.Params[0]
+		if !dec {
+			vpv = fn.Params[1]
+		}
+		opnd := func(rec *ssa.Call) ssa.Value {
+			if dec {
+				return CallArgs(rec)[0]
+			}
+			return CallArgs(rec)[1]
+		}
+		// form of a call's operand: "plain" v.Field(i), "elem" v.Field(i).Elem(), "merge" a φ of the two, "" anything else
+		form := func(rec *ssa.Call) string {
+			d := opnd(rec)
+			if fieldOfV(d, vpv) != nil {
+				return "plain"
+			}
+			if ec, ok := d.(*ssa.Call); ok && CalleeOf(ec) == "(reflect.Value).Elem" && fieldOfV(ec.Call.Args[0], vpv) != nil {
+				return "elem"
+			}
+			if ph, ok := d.(*ssa.Phi); ok && len(ph.Edges) == 2 {
+				return "merge"
+			}
+			return ""
+		}
+		okLoop := true
+		for _, rec := range recs {
+			okLoop = okLoop && loopHeadOf(rec) == head
+		}
+		if !okLoop {
+			r.Fail(kp+"variant-table", r.FnPos(fn), "undecided: a recursive call of the struct case lies outside the loop that looks up the field's tag")
+			continue
+		}
+		rec := recs[0] // (position for messages)
 		stop := map[*ssa.BasicBlock]bool{head: true}
 		// one iteration is walked from the tag lookup to the loop head; where the loop decides
 		// about the next iteration at its end (`for i := range n`) the walk assumes that there is
@@ -650,7 +688,26 @@ func c09R6(r *Run, pf, mf *c09fn) {
 					// (a walk that starts in the head itself: that block being reached says nothing, its back edge does)
 					cont = cont || (reach.Blocks[p] && head.Dominates(p) && (p != head || body != head || reach.Edges[[2]int{p.Index, head.Index}]))
 				}
-				coded := reach.Has(rec)
+				// exactly one coding call executes, and it takes the form the row calls for (a merged
+				// operand is judged per incoming edge below: coded-operand)
+				var ran []*ssa.Call
+				for _, rc := range recs {
+					if reach.Has(rc) {
+						ran = append(ran, rc)
+					}
+				}
+				coded := len(ran) == 1
+				if coded {
+					switch f := form(ran[0]); rw.want {
+					case "plain":
+						coded = f == "plain" || f == "merge"
+					case "chosen":
+						coded = f == "elem" || f == "merge"
+					}
+				}
+				if len(ran) > 1 {
+					coded = rw.want == "error" || rw.want == "skip" // (so that the row fails: the field would be coded more than once)
+				}
 				var ok bool
 				switch rw.want {
 				case "plain":
@@ -667,35 +724,42 @@ func c09R6(r *Run, pf, mf *c09fn) {
 					ok = ok && any(reach, unmark) == (rw.first == "F")
 				}
 				r.Check(key, ok, r.Where(ftis[0]),
-					fmt.Sprintf("expected %s; coded=%v continues=%v returns=%d setnil=%v alloc=%v marked=%v reset=%v", rw.want, coded, cont, len(rets), any(reach, zero), any(reach, alloc), any(reach, mark), any(reach, unmark)))
+					fmt.Sprintf("expected %s; coded(once, in the form of the row)=%v [%d coding calls run] continues=%v returns=%d setnil=%v alloc=%v marked=%v reset=%v", rw.want, coded, len(ran), cont, len(rets), any(reach, zero), any(reach, alloc), any(reach, mark), any(reach, unmark)))
 			})
 			if err != nil {
 				r.Fail(key, r.FnPos(fn), "undecided: "+err.Error())
 			}
 		}
 		// what is coded when chosen: the pointed-to value; otherwise the field itself
-		dst := CallArgs(rec)[0]
-		if !dec {
-			dst = CallArgs(rec)[1]
-		}
-		vpv := fn.Params[0]
-		if !dec {
-			vpv = fn.Params[1]
-		}
-		ph, isPhi := dst.(*ssa.Phi)
-		okDst := isPhi && len(ph.Edges) == 2
-		if okDst {
-			nElem, nPlain := 0, 0
-			for i, ed := range ph.Edges {
-				served := anyDominated(mark, ph.Block().Preds[i])
-				if fieldOfV(ed, vpv) != nil && !served {
-					nPlain++
-				} else if ec, ok := ed.(*ssa.Call); ok && CalleeOf(ec) == "(reflect.Value).Elem" && fieldOfV(ec.Call.Args[0], vpv) != nil && served {
-					nElem++
+		okDst, nElemAll, nPlainAll := true, 0, 0
+		for _, rc := range recs {
+			switch form(rc) {
+			case "merge":
+				ph := opnd(rc).(*ssa.Phi)
+				nElem, nPlain := 0, 0
+				for i, ed := range ph.Edges {
+					served := anyDominated(mark, ph.Block().Preds[i])
+					if fieldOfV(ed, vpv) != nil && !served {
+						nPlain++
+					} else if ec, ok := ed.(*ssa.Call); ok && CalleeOf(ec) == "(reflect.Value).Elem" && fieldOfV(ec.Call.Args[0], vpv) != nil && served {
+						nElem++
+					}
 				}
+				okDst = okDst && nElem == 1 && nPlain == 1
+				nElemAll += nElem
+				nPlainAll += nPlain
+			case "plain":
+				// (that it runs for plain fields only is the table's "plain" row)
+				okDst = okDst && !anyDominated(mark, rc.Block())
+				nPlainAll++
+			case "elem":
+				okDst = okDst && anyDominated(mark, rc.Block())
+				nElemAll++
+			default:
+				okDst = false
 			}
-			okDst = nElem == 1 && nPlain == 1
 		}
+		okDst = okDst && nElemAll >= 1 && nPlainAll >= 1
 		r.Check(kp+"coded-operand", okDst, r.Where(rec), "a chosen variant codes v.Field(i).Elem() (after being marked served); a plain field codes v.Field(i)")
 		if dec {
 			okA := len(alloc) == 1
@@ -729,7 +793,21 @@ func c09R6(r *Run, pf, mf *c09fn) {
 			for _, b := range c.blocksTesting(func(ci *CondInfo) bool {
 				return ci.Kind == "ord" && strings.Contains(ci.Key, "Kind(g:tls.enumType)") && glob("*iface(reflect.Type).Field(*).Type*", ci.Key)
 			}) {
-				guard = guard || (b.Succs[0] == mu.Block() && len(mu.Block().Preds) == 1 && rec.Block().Dominates(b))
+				// … after the call that codes the field.  Where plain fields and chosen variants are
+				// coded at places of their own, that is the call for plain fields: a variant field has
+				// pointer kind (row ptr> of the table refuses any other), never the kind of Enum.
+				after := false
+				for _, rc := range recs {
+					if f := form(rc); f == "plain" || f == "merge" {
+						after = after || rc.Block().Dominates(b)
+					}
+				}
+				for _, rc := range recs {
+					if form(rc) == "merge" && !rc.Block().Dominates(b) {
+						after = false
+					}
+				}
+				guard = guard || (b.Succs[0] == mu.Block() && len(mu.Block().Preds) == 1 && after)
 			}
 			r.Check(kp+"selector-recorded", okK && okV && guard, r.Where(mu), "after a field of Enum kind is coded, enums[field name] = its value: "+c.D(mu.Key)+" ← "+c.D(mu.Value))
 		})
